@@ -23,4 +23,42 @@ CLAIMS = {
                      'taken) x challengers: GrantOnlyIf, ChallengerHandsOver and the admin frame condition hold; every transition runs through MsgCreateBridge/MsgUpdateMetadata/'
                      'MsgUpdateChallenger with the real hook.BridgeHook wired to an in-store channel/perm keeper.', note=COMMON_NOTE + ' The IBC channel and perm keepers are harness implementations of the hook interfaces (the real ones are not in this repository).'),
 }
+CLAIMS.update({
+    'C06': dict(text='Relay model: three/four pending deposits, two executors and a stranger, every sequence (incl. 0, replays, gaps, ahead) offered in every state, interleaved with a '
+                     'withdrawal and an executor rotation: InOrderOnce, NoopIsNoop, AheadRejected hold on every transition (TLC) and every transition is replayed on the real keeper; '
+                     'NextL1Sequence is read through the gRPC query.', note=COMMON_NOTE),
+    'C07': dict(text='Deposit model: recipients {valid, malformed, blocked module account} x amounts {0,2} x hook payloads {none, undecodable, badly signed, well signed ok / failing / '
+                     'failing at message 2 / panicking handler / signer without funds} x hook gas {ample, below signature cost, zero} x injected error or panic in MintCoins / '
+                     'SendCoinsFromModuleToAccount: Outcome (credited xor exactly one refund withdrawal under the next L2 sequence), HookContained (only the signer sequence is consumed) and '
+                     'DepositNeverStalls hold; each case runs on the real keeper with real signed hook transactions and a fault-injecting bank keeper wrapper.',
+                note=COMMON_NOTE + ' The hook gas bound itself (spends at most the configured hook gas) is not measured yet.'),
+    'C09': dict(text='Withdrawals of bridged / native / unknown denoms for amounts 0, within and beyond balance, interleaved with credited and refunded deposits and a deposit naming another '
+                     'base denom for an existing L2 denom: WithdrawExact, PairImmutable, gap-free shared L2 sequence, per-step bridged supply delta and supply = sum of balances hold and are '
+                     'replayed on the real keeper (bank supply and BaseDenom query included in the projected state).', note=COMMON_NOTE),
+    'C12': dict(text='Every permissioned L1 message x signers {gov, proposer, challenger, their replacements, stranger} in every state reachable by role rotations; every L2 message '
+                     '(deposit finalization, bridge info with every single-field re-pointing, params, fee pool, batched execution with good / foreign-signer / failing inner messages) x '
+                     'signers {authority, admin, executors, stranger} across executor and admin rotations; validator messages x {authority, stranger}: AuthOnlyIf + sufficiency, '
+                     'BindingImmutable, ExecAllOrNothing hold (TLC) and every transition is replayed on the real keepers.', note=COMMON_NOTE),
+    'C13': dict(text='Validator-set model from six genesis sets (incl. zero-power and duplicate-key entries, over-cap sets rejected), add / remove / max-validators / retention changes in '
+                     'every grouping over blocks, genesis round trips between blocks: Good (engine set = positive-power validators = last powers, indexes one-to-one, capacity, no halt) is '
+                     'inductive, BatchWellFormed and HistoryExact hold; every transition runs on the real keeper through BeginBlocker / EndBlocker and every returned batch is applied to a '
+                     'real CometBFT ValidatorSet.', note=COMMON_NOTE + ' Histories that would leave the consensus engine with an empty set are outside the model (the statement gives no acceptance criterion for them).'),
+    'C14': dict(text='Plans with new / existing operator and new / used consensus key, registered for the current or next heights, over the validator-set states of the plan model: PlanApplied, '
+                     'OnlyAtHeight, RegisterRejects hold for plans that reuse neither an operator nor a key; the two reuse cases are open known findings whose signature is computed by '
+                     'the specification AND re-evaluated on the real chain after EndBlocker (KNOWN-FINDING lines); every transition is replayed on the real keeper and CometBFT set.',
+                note=COMMON_NOTE),
+    'C16': dict(text='A genesis round trip (export -> JSON -> ValidateGenesis -> InitGenesis on a fresh instance -> second export compared) is an event in the L1 ledger, L2 deposit and '
+                     'validator-set models, offered in every reachable state; the walk CONTINUES on the re-imported chain, so every later message and query of the model is answered by the '
+                     're-imported chain and compared with the specification, and the L2 import feeds InitGenesis updates to a fresh CometBFT set.', note=COMMON_NOTE),
+    'C17': dict(text='Formats.tla defines leaf, node, root-from-proof, output root, L2 denom and escrow address as a term algebra and the tree / proof rule; TLC emits one term per operator and '
+                     'structural case (node: <,=,>,adjacent; proofs of length 0..6; trees of 1..9 leaves x every position); a generic evaluator that knows only be64/str/cat/sha3/sha256/hex '
+                     'fills the holes with seeded full-range values and the bytes are compared with the chain functions and with pinned vectors; SliceMem.tla models slice headers and append, '
+                     'TLC checks Pure and LayoutFree for all layouts of 3 items x comparison outcomes, and each layout is built for real and run through GenerateRootHashFromProofs and through '
+                     'the FinalizeTokenWithdrawal handler (called without a protobuf round trip).', technique='TLA+-defined functions enumerated by TLC, evaluated by a generic term evaluator, replayed on the real functions; memory model checked by TLC',
+                note='Weaker than temporal model checking: a pure function is transcribed and enumerated. SHA3/SHA256 implementations trusted; inputs per case are sampled (full-range seeded values), structural cases are exhaustive within the bounds.'),
+    'C20': dict(text='Ante.tla defines FeeAdmit, SystemLane, FreeLane and the redundant-relay filter; TLC enumerates 2 denoms x node/chain prices {0,1/4,1/2,5/4} x gas {1,2,3,7} x fees 0..3 x '
+                     'check/deliver (32768 fee cases), message lists and nesting shapes, whitelist x payer x granter, stale/fresh/ahead deposit mixes x check/recheck/deliver x simulate, checks '
+                     'monotonicity and the two stated directions, and every case is built as a real transaction and run through the real decorators and match handlers.',
+                technique='TLA+-defined decision functions enumerated by TLC and replayed case by case on the real decorators', note='Exhaustive within the enumerated domain only; gas = 0 and transactions mixing stale deposits with other messages are outside the statement (recorded as drift).'),
+})
 NOT_YET = {}
